@@ -293,7 +293,7 @@ pub fn main_c17(args: &Args) -> i32 {
         "proptest enum sources (0-5 outer attributes in generated order: derive lists with Logos first/middle/last/alone/absent-in-this-list, path-qualified derives incl. logos::Logos, several derive attributes, cfg_attr, repr, docs, foreign attributes, logos attributes; 1-5 variants with docs/cfg/foreign/logos attributes, unit and one-field variants with field attributes, lifetimes) x histories vec(op,0..6) over {write, check, tamper CRLF / edit / blank line, delete}; oracle: stdout = [enum, impl] valid Rust, enum == input minus logos/token/regex attributes and the Logos derive (computed with syn), impl == logos_codegen::generate(input), --check exits 0 iff file lines == output lines and never changes bytes or mtime, write leaves exactly the output; evaluation = one CLI invocation group; non-trivial = distinct sources with a path derive, >= 2 derive attributes or a field attribute",
     );
     let bin = PathBuf::from(args.extra.get("cli").expect("--cli"));
-    let dir = PathBuf::from("/verif/work/cli-scratch/c17");
+    let dir = model::run::root().join("work/cli-scratch/c17");
     std::fs::create_dir_all(&dir).unwrap();
     let cli = Cli { bin, dir };
     if let Some(path) = &args.replay {
@@ -377,7 +377,7 @@ fn replay_c17(cli: &Cli, src: &str, path: &Path) -> i32 {
 pub fn c16_cli(args: &Args, run: &mut Run, sources: &[String]) -> Option<serde_json::Value> {
     let bins: Vec<(&str, PathBuf)> = [("tailcall", "cli"), ("state_machine", "cli-sm")].iter().filter_map(|(n, k)| args.extra.get(*k).map(|p| (*n, PathBuf::from(p)))).collect();
     for (name, bin) in bins {
-        let dir = PathBuf::from(format!("/verif/work/cli-scratch/c16-{name}"));
+        let dir = model::run::root().join(format!("work/cli-scratch/c16-{name}"));
         std::fs::create_dir_all(&dir).unwrap();
         let cli = Cli { bin, dir: dir.clone() };
         for src in sources {
